@@ -774,6 +774,17 @@ def task_version_dispatch(pr, repo):
                 ctx.oblige('VD[%s.%s]: forwards to %s with arguments %s and returns its result' % (cname, wname, target, pattern), ok)
             pr.explore(ex, thunk, 'version dispatch %s.%s' % (cname, wname))
 
+    task_version_hb(pr, repo, ex)
+
+
+def task_version_hb(pr, repo, ex=None):
+    """H-bond parameter look-ups of the Version object (own parameters; other group types: None, never an exception)."""
+    VM = 'propka.version.'
+    if ex is None:
+        ex = Executor(repo)
+        for n in ('VersionA.get_hydrogen_bond_parameters', 'VersionA.get_backbone_hydrogen_bond_parameters'):
+            pr.under_contract(repo.func(VM + n))
+
     def t_hb(ex, ctx):
         dmax = R('sidechain_interaction')
         calls = []
@@ -805,9 +816,15 @@ def task_version_dispatch(pr, repo):
         ctx.oblige('VD: H-bond parameters come from the parameters of THIS Version object - a second object built from other '
                    'parameters in the same process returns its own maximum and cut-offs, and the first keeps its own',
                    r2[0] is dmax2 and r2[1][0] == R('c0_2') and r1b[0] is dmax and r1b[1][0] == R('c0'))
-        for bt, gt, table in (('BBC', 'HIS', co), ('BBN', 'COO', nh), ('BBC', 'COO', None), ('BBN', 'HIS', None), ('COO', 'HIS', None)):
+        # ('COO', ...): an atom that a later group set-up relabelled (the OXT of a C-terminus whose carbonyl O is missing)
+        for bt, gt, table in (('BBC', 'HIS', co), ('BBN', 'COO', nh), ('BBC', 'COO', None), ('BBN', 'HIS', None), ('COO', 'HIS', None),
+                              ('COO', 'COO', None), ('ION', 'HIS', None)):
             bb, at = record('bb', None, group_type=bt), record('at', None, group_type=gt)
-            r = ex.call(ex.getattr(v, 'get_backbone_hydrogen_bond_parameters'), [bb, at], {})
+            try:
+                r = ex.call(ex.getattr(v, 'get_backbone_hydrogen_bond_parameters'), [bb, at], {})
+            except PyRaise as e:
+                ctx.oblige('VD: backbone H-bond parameters [%s, %s]: the look-up raises %s' % (bt, gt, e.exc_name), False)
+                continue
             if table is None:
                 ok = r is None
             else:
